@@ -237,3 +237,40 @@ const char *ossl_cipher_name_for_id(uint16_t id) {
     cache[id] = name;
     return cache[id].c_str();
 }
+
+#include <openssl/pem.h>
+bool ossl_make_crl(int kind, bool revoke_leaf, Bytes &der, std::string *err) {
+    ossl_global_init();
+    struct vsim_keymat m;
+    if (!vsim_keymat(kind, &m)) { if (err) { *err = "no key material"; } return false; }
+    const char *repo = getenv("VSIM_REPO"); std::string root = repo ? repo : "/repo";
+    std::string keyfile = root + (kind == 2 ? "/testkeys/EC/256_EC_CA_KEY.pem" : kind == 3 ? "/testkeys/EC/384_EC_CA_KEY.pem" : "/testkeys/RSA/2048_RSA_CA_KEY.pem");
+    BIO *b = BIO_new_file(keyfile.c_str(), "r");
+    if (!b) { if (err) { *err = "cannot open " + keyfile; } return false; }
+    EVP_PKEY *cakey = PEM_read_bio_PrivateKey(b, nullptr, nullptr, nullptr); BIO_free(b);
+    if (!cakey) { if (err) { *err = "CA key does not parse"; } return false; }
+    const unsigned char *p = m.ca; X509 *ca = d2i_X509(nullptr, &p, (long) m.caLen);
+    p = m.cert; X509 *leaf = d2i_X509(nullptr, &p, (long) m.certLen);
+    bool ok = false;
+    X509_CRL *crl = X509_CRL_new();
+    if (ca && leaf && crl) {
+        X509_CRL_set_version(crl, 1);
+        X509_CRL_set_issuer_name(crl, X509_get_subject_name(ca));
+        ASN1_TIME *t0 = ASN1_TIME_set(nullptr, (time_t) vsim_wall_s() - 86400), *t1 = ASN1_TIME_set(nullptr, (time_t) vsim_wall_s() + 90 * 86400);
+        X509_CRL_set1_lastUpdate(crl, t0); X509_CRL_set1_nextUpdate(crl, t1);
+        if (revoke_leaf) {
+            X509_REVOKED *r = X509_REVOKED_new();
+            X509_REVOKED_set_serialNumber(r, X509_get_serialNumber(leaf)); X509_REVOKED_set_revocationDate(r, t0);
+            X509_CRL_add0_revoked(crl, r);
+        }
+        ASN1_TIME_free(t0); ASN1_TIME_free(t1);
+        X509_CRL_sort(crl);
+        if (X509_CRL_sign(crl, cakey, EVP_sha256()) > 0) {
+            int n = i2d_X509_CRL(crl, nullptr);
+            if (n > 0) { der.resize((size_t) n); unsigned char *o = der.data(); i2d_X509_CRL(crl, &o); ok = true; }
+        } else if (err) { *err = "X509_CRL_sign failed"; }
+    } else if (err) { *err = "certificate does not parse"; }
+    if (crl) { X509_CRL_free(crl); } if (ca) { X509_free(ca); } if (leaf) { X509_free(leaf); }
+    EVP_PKEY_free(cakey);
+    return ok;
+}
